@@ -3,7 +3,9 @@ from irbmc import core
 from irbmc.core import Family, Harness, STRING_MODEL
 
 NOINLINE = [r'chaiscript::make_unique<', r'std::unique_ptr<chaiscript::eval::AST_Node_Impl<.*>::~unique_ptr', r'chaiscript::optimizer::\w+::optimize<', r'chaiscript::boxed_cast<',
-            r'chaiscript::optimizer::(child_at|child_count|contains_var_decl_in_scope|make_compiled_node)', r'chaiscript::Boxed_Value::~Boxed_Value', r'chaiscript::const_var'] + STRING_MODEL
+            r'chaiscript::optimizer::(child_at|child_count|contains_var_decl_in_scope|make_compiled_node)', r'chaiscript::Boxed_Value::~Boxed_Value', r'chaiscript::const_var',
+            r'chaiscript::detail::Dispatch_Engine::(new_scope|pop_scope)\(', r'chaiscript::detail::Dispatch_State::add_object', r'chaiscript::Boxed_Value::Object_Data::get<',
+            r'AST_Node_Impl<.*>::eval\(', r'chaiscript::Boxed_Value::Boxed_Value<', r'chaiscript::void_var'] + STRING_MODEL
 FAM = Family('optimizer', 'optimizer.cpp', noinline=NOINLINE)
 
 def dead_code_harness(tier):
